@@ -88,6 +88,8 @@ class SymEval:
                     return f"nodes({V(e.func.value)})"
             if nm == "len" and len(e.args) == 1:
                 return f"len({V(e.args[0])})"
+            if nm == "enumerate" and isinstance(e.func, ast.Name) and e.args:
+                return f"enumerate({V(e.args[0])})"   # the start offset does not change which elements are visited
             if nm in ("bool", "int", "str", "cast") and e.args:
                 return V(e.args[-1])
             fn = V(e.func.value) + "." + e.func.attr if isinstance(e.func, ast.Attribute) else nm
@@ -110,6 +112,14 @@ class SymEval:
             if isinstance(e.slice, ast.Constant) and e.slice.value == "kind" and isinstance(e.value, ast.Subscript) \
                     and isinstance(e.value.value, ast.Attribute) and e.value.value.attr == "nodes":
                 return f"kind({V(e.value.slice)})"
+            # a table built by a dict comprehension {x: F(x) for x in S}, read at k, is F(k)
+            tbl, tat = self.fm.deref_at(e.value, at) if not (bound and isinstance(e.value, ast.Name) and e.value.id in bound) else (e.value, at)
+            if isinstance(tbl, ast.DictComp) and len(tbl.generators) == 1 and not tbl.generators[0].ifs \
+                    and isinstance(tbl.generators[0].target, ast.Name) and isinstance(tbl.key, ast.Name) \
+                    and tbl.key.id == tbl.generators[0].target.id:
+                b2 = dict(bound)
+                b2[tbl.key.id] = V(e.slice)
+                return self.val(tbl.value, tat, b2, depth + 1)
             base, k = V(e.value), V(e.slice)
             return _norm(f"idx({base},{k})")
         if isinstance(e, ast.Attribute):
